@@ -163,7 +163,7 @@ func seqCase(r *hx.Run, kind string, ops []string) {
 	if kind == "sm" {
 		ans = execSeqSM(r, ops)
 	} else {
-		ans = execSeqDag(r, ops)
+		ans = execSeqDag(r, ops) // "dag": abstract-lock model, "dagc": composed model
 	}
 	r.Line("seq "+kind+" "+strings.Join(ops, " "), ans)
 	r.Count("seq-" + kind)
